@@ -531,6 +531,8 @@ def run(c, facts, tier):
             "the digit run takes %s..%s digits; 8^max−1 must fit the twelve permission bits (else from_bits().unwrap() panics or the value is out of range)" % (st["min"], st["max"] if st["max"] is not None else "∞"),
             witness="-perm 10000" if not bounded else None,
         )
+        both = st["min"] <= 3 and st["max"] is not None and st["max"] >= 4
+        c.ob("C08.octal", pk, "the 3-digit and the 4-digit spelling are both accepted", both, "the digit run takes %s..%s digits: `644` and `0644` (and `4755`) must both be octal modes" % (st["min"], st["max"] if st["max"] is not None else "∞"), witness="-perm 0644" if not both else None)
     else:
         c.ob("C08.octal", pk, "octal branch present", False, "octal alternative not found")
     if symb is not None:
